@@ -22,6 +22,7 @@ PINS = {
     "CxxParser._parse_field": "1185f75a2b4379ede0104654",
     "CxxParser._parse_template": "be0af5243218af844a21ffd8",
     "CxxParser._parse_concept": "0400b1ee52892a9ba78c885f",
+    "CxxParser._parse_template_instantiation": "1db08717472a3155640f103e",
     "CxxParser._parse_requires": "defd516ad5a541785b7e5546",
     "CxxParser._parse_requires_segment": "8e88059e2486dfa53897a602",
 }
